@@ -418,9 +418,36 @@ def analyse_rr_sweep(ev, where, issues, queries, stats):
 def analyse_final(kind, fin, t, issues, queries, stats):
     """t: one entry of final.types"""
     origin, horizon = R.qd(fin["origin"]), R.qd(fin["horizon"])
-    atoms = R.atoms_of(t)
+    kk = "sv" if kind == "SV" else "rr"
+    # The atoms judged are NOT taken from the smart type's own registry (`atoms`, filled by new_atom) but from the harness's
+    # independent enumeration: every atom of every predicate whose tau value(s) is an instance whose type derives from the
+    # smart type at any depth. An atom the planner never handed to the smart type is judged like any other, and reported.
+    if "all_atoms" in t:
+        reg_ids = set(a["id"] for a in t["atoms"])
+        seen_reg = set(a["reg"] for a in t["all_atoms"] if a["reg"] >= 0)
+        if not reg_ids <= seen_reg:
+            issues.append(("corr:tl:registry_atom_not_enumerated:" + kind, {"property": False, "atoms": sorted(reg_ids - seen_reg)}))
+        for a in t["all_atoms"]:
+            if a["sigma"] == "T" and a["tau"] and "start" not in a:
+                issues.append((kk + ":atom-without-interval", {"property": True, "atom": a,
+                                                               "what": "an active atom on an instance of the type has no start / end"}))
+        unreg = [a for a in t["all_atoms"] if a["reg"] < 0 and a["sigma"] == "T" and a["tau"]]
+        stats["atoms_enumerated_independently"] = stats.get("atoms_enumerated_independently", 0) + len(t["all_atoms"])
+        stats["instances_of_derived_types"] = stats.get("instances_of_derived_types", 0) + sum(1 for x in t.get("inst_types", []) if x not in ("StateVariable", "ReusableResource"))
+        if unreg:
+            issues.append((kk + ":atom-not-registered",
+                           {"property": True, "atoms": unreg, "instance_types": t.get("inst_types"),
+                            "what": "active atoms whose tau is an instance of a (possibly indirect) subtype of the smart type were never handed to "
+                                    "it (not in its `atoms`): they are not swept, get no ordering literals and do not appear in extract_timelines"}))
+        if t.get("n_inst_all", 0) > t.get("n_inst_listed", 0):
+            issues.append((kk + ":instance-not-registered", {"property": True, "instance_types": t.get("inst_types"), "listed": t.get("n_inst_listed"),
+                                                             "what": "instances of a subtype are missing from the smart type's get_instances()"}))
+        atoms = [R.Atom(a) for a in t["all_atoms"] if "start" in a]
+        caps = [R.qd(c) if c is not None else None for c in t.get("capacity_all", [])]
+    else:
+        atoms = R.atoms_of(t)
+        caps = [R.qd(c) for c in t.get("capacity", [])]
     pi = R.per_instance(atoms)
-    caps = [R.qd(c) for c in t.get("capacity", [])]
     act = [a for a in atoms if a.sigma == "T"]
     stats["solutions"] = stats.get("solutions", 0) + 1
     stats["active_atoms_in_solutions"] = stats.get("active_atoms_in_solutions", 0) + len(act)
@@ -437,7 +464,7 @@ def analyse_final(kind, fin, t, issues, queries, stats):
         if all(a.s <= a.e for a in ats):
             if kind == "SV":
                 queries.append((q_sv(ats).replace("sv ", "svok ", 1), "true" if not R.sv_overlaps_brute(ats) else "false", "final:checker:inst%d" % i))
-            elif 0 <= i < len(caps) and caps[i] >= R.ZERO:
+            elif 0 <= i < len(caps) and caps[i] is not None and caps[i] >= R.ZERO:
                 ql, _d = q_rr(ats, caps[i])
                 queries.append((ql.replace("rr ", "rrok ", 1), "true" if not R.rr_peaks_brute(ats, caps[i]) else "false", "final:checker:inst%d" % i))
         touch = sum(1 for a in ats for b in ats if a.e == b.s and a.id != b.id and a.s < a.e and b.s < b.e)
@@ -448,7 +475,7 @@ def analyse_final(kind, fin, t, issues, queries, stats):
                 issues.append(("sv:overlap-in-solution", {"property": True, "instance": i, "overlapping_atoms": ov,
                                                           "atoms": [{"id": a.id, "start": R.show(a.s), "end": R.show(a.e), "tau": a.tau} for a in ats]}))
         else:
-            if i < 0 or i >= len(caps):
+            if i < 0 or i >= len(caps) or caps[i] is None:
                 continue
             if caps[i] < R.ZERO:
                 issues.append(("rr:negative-capacity-in-solution", {"property": True, "instance": i, "capacity": R.show(caps[i])}))
@@ -509,7 +536,10 @@ def analyse_final(kind, fin, t, issues, queries, stats):
             issues.append(("rr:timeline-usage-over-capacity", {"property": True, "instance": i}))
     for i in pi:
         if i not in seen:
-            issues.append(("corr:tl:timeline_missing:" + kind, {"property": False, "instance": i}))
+            shown = [a.id for a in pi[i] if a.s < a.e]
+            issues.append(((kk + ":atom-not-in-timeline") if shown else ("corr:tl:timeline_missing:" + kind),
+                           {"property": bool(shown), "instance": i, "active_atoms_with_positive_duration": shown,
+                            "what": "extract_timelines has no timeline for an instance that hosts active atoms"}))
     # --- the sweep on the final state, with every instance forced into to_check -------------------------------------
     check_to_check(t, "final:to_check_at_return", issues, stats)
     fz = t["forced"]
